@@ -29,7 +29,9 @@ type Lambda struct {
 func (lam *Lambda) Call(s *Scope, args List, depth int) (result Object) {
 	ss := s.NewScope()
 	if lam.Closure != nil {
-		ss.parents = append(ss.parents, lam.Closure)
+		// The variables captured by the closure take precedence over the
+		// variables of the caller.
+		ss.parents = []*Scope{lam.Closure, s}
 		ss.Macro = lam.Closure.Macro
 	} else if s.Keep { // flavors instance uses this
 		ss.parents = append(ss.parents, s)
